@@ -42,6 +42,9 @@ type MuxSpec struct {
 
 func (m MuxSpec) String() string {
 	s := fmt.Sprintf("mux srcs=%d calls[", len(m.Srcs))
+	if len(m.Calls) > 40 {
+		return s + fmt.Sprintf("%d calls, first %s ...]", len(m.Calls), m.Calls[0].Kind)
+	}
 	for _, c := range m.Calls {
 		switch c.Kind {
 		case "addframe":
@@ -140,6 +143,17 @@ func GenMuxSpec(r *RNG, maxFrames int) MuxSpec {
 func (propC14) Gen(seed uint64, tier string, idx int) any {
 	r := NewRNG(seed)
 	p := &C14Params{Spec: GenMuxSpec(r, 8)}
+	if idx%1500 == 7 {
+		// the frame-count cap: exactly at, just below and just above the limit
+		p.Spec = GenMuxSpec(r, 1)
+		p.Spec.Srcs = p.Spec.Srcs[:1]
+		p.Spec.Srcs[0].Img.W, p.Spec.Srcs[0].Img.H = 1, 1
+		n := r.Pick(9999, 10000, 10000, 10001)
+		p.Spec.Calls = nil
+		for i := 0; i < n; i++ {
+			p.Spec.Calls = append(p.Spec.Calls, MuxCall{Kind: "addframe", Src: 0, A: 10})
+		}
+	}
 	p.Sched = SchedSpec{Seed: r.Next(), Policy: vsim.PolCanonical, Procs: 1}
 	if r.Pct(30) {
 		// error at each of Assemble's Write calls in turn
@@ -386,6 +400,13 @@ func checkMuxOutput(p *C14Params, md *muxModel, data []byte) *Violation {
 	}
 	if wf.Animated {
 		kind = "anim"
+	}
+	if !wf.Animated {
+		for i, f := range md.frames {
+			if f.dur > 0 {
+				return bad("duration-lost:still", "frame %d has duration %d ms but the file is written as a still image, which cannot carry it", i, f.dur)
+			}
+		}
 	}
 	if len(wf.Frames) != len(md.frames) {
 		return bad("frame-count:"+kind, "%d frames added, file has %d", len(md.frames), len(wf.Frames))
